@@ -405,6 +405,7 @@ fn has_agg(e: &E) -> bool {
 /// rewrite column references to the given scope of qualifiers
 fn rescope(e: &E, scope: &[u8]) -> E {
     match e {
+        E::Col(_) | E::TCol(_) if scope.is_empty() => E::Int(1),
         E::Col(c) | E::TCol(c) => {
             if scope.len() == 1 {
                 E::Col(*c)
@@ -420,7 +421,17 @@ fn rescope(e: &E, scope: &[u8]) -> E {
             }
         }
         E::AliasRef(_) | E::Star => E::Int(2),
+        // MATCH needs an application-defined function: not executable
+        E::Bin(l, Op::SqMatch, r) => E::Bin(Box::new(rescope(l, scope)), Op::SqGlob, Box::new(rescope(r, scope))),
         other => other.map_children(&mut |_, c| rescope(c, scope)),
+    }
+}
+
+/// an ORDER BY term that is a bare integer constant means "column number": keep such terms out of the domain
+fn not_positional(e: E) -> E {
+    match e {
+        E::Int(_) | E::Const(_) => E::Null,
+        other => other,
     }
 }
 
@@ -494,6 +505,11 @@ fn fix_source_exec(f: &mut FromSpec, ctes: &[u8], o: ExecOpts) {
 
 /// Make a SELECT valid and deterministic on SQLite (and portable if requested).
 pub fn fix_select_exec(s: &mut SelectSpec, o: ExecOpts, allow_with: bool) {
+    fix_select_exec_n(s, o, allow_with, None)
+}
+
+/// `arity`: the number of result columns this select must have (it is an operand of a set operation)
+fn fix_select_exec_n(s: &mut SelectSpec, o: ExecOpts, allow_with: bool, arity: Option<usize>) {
     // ---- WITH: CTE bodies are pass-through selects; names are unique
     let mut ctes: Vec<u8> = vec![];
     if !allow_with {
@@ -536,7 +552,7 @@ pub fn fix_select_exec(s: &mut SelectSpec, o: ExecOpts, allow_with: bool) {
     }
     s.from.truncate(2);
     s.joins.truncate(2);
-    let star_only = matches!(s.from[0], FromSpec::Values(..));
+    let star_only = matches!(s.from[0], FromSpec::Values(..)) && arity.is_none();
     if star_only {
         // the column names of a VALUES table differ between engines: select * from it, nothing else
         let f0 = s.from[0].clone();
@@ -548,6 +564,9 @@ pub fn fix_select_exec(s: &mut SelectSpec, o: ExecOpts, allow_with: bool) {
         return;
     }
     s.from.retain(|f| !matches!(f, FromSpec::Values(..)));
+    if s.from.is_empty() {
+        s.from.push(FromSpec::Table(1, None));
+    }
     let mut used: Vec<u8> = vec![];
     let mut next_alias = 3u8;
     let mut uniq = |f: &mut FromSpec, used: &mut Vec<u8>| {
@@ -570,6 +589,9 @@ pub fn fix_select_exec(s: &mut SelectSpec, o: ExecOpts, allow_with: bool) {
         uniq(f, &mut used);
     }
     for j in s.joins.iter_mut() {
+        if let FromSpec::Values(_, a) = &j.src {
+            j.src = FromSpec::Table(1, Some(*a)); // a VALUES table has engine-specific column names
+        }
         fix_source_exec(&mut j.src, &ctes, o);
         uniq(&mut j.src, &mut used);
         j.lateral = false;
@@ -602,11 +624,20 @@ pub fn fix_select_exec(s: &mut SelectSpec, o: ExecOpts, allow_with: bool) {
         let e = if o.portable { portable_expr(e) } else { e.clone() };
         rescope(&e, &scope)
     };
+    // SQLite 3.40.1 mis-evaluates RIGHT / FULL JOIN after a join whose ON condition folds to a constant
+    // (`SELECT .. FROM t JOIN t a ON 0 RIGHT JOIN t b ON ..` returns no rows; reproduced with plain SQL, see DESIGN.md):
+    // with such joins present every ON condition is a column equality, so the engine defect stays out of the oracle.
+    let outer_right = s.joins.iter().any(|j| matches!(j.kind, JoinKind::Right | JoinKind::FullOuter));
     for (k, j) in s.joins.iter_mut().enumerate() {
         // the ON condition may only see the tables joined so far
-        let upto = s.from.len() + k + 1;
+        let upto = (s.from.len() + k + 1).min(scope.len());
+        if outer_right && upto >= 2 {
+            let c = 1 + (k as u8 % 4);
+            j.on = E::Bin(Box::new(E::QCol(scope[upto - 2], c)), Op::Eq, Box::new(E::QCol(scope[upto - 1], 1 + ((k as u8 + 1) % 4))));
+            continue;
+        }
         let e = if o.portable { portable_expr(&j.on) } else { j.on.clone() };
-        j.on = rescope(&strip_aggs(&e), &scope[..upto.min(scope.len())]);
+        j.on = rescope(&strip_aggs(&e), &scope[..upto]);
     }
     s.wheres = s.wheres.iter().map(|w| strip_aggs(&fx(w))).collect();
     // ---- grouping
@@ -685,6 +716,13 @@ pub fn fix_select_exec(s: &mut SelectSpec, o: ExecOpts, allow_with: bool) {
             }
         }
     }
+    if let Some(n) = arity {
+        items.retain(|i| !matches!(i.e, E::Star));
+        items.truncate(n);
+        while items.len() < n {
+            items.push(Item { e: if grouped { E::Agg(2, Box::new(E::Int(3)), false) } else { E::Int(3) }, alias: None, win: None });
+        }
+    }
     s.items = items;
     s.distinct = match &s.distinct {
         Some(Dist::Distinct) => Some(Dist::Distinct),
@@ -694,6 +732,7 @@ pub fn fix_select_exec(s: &mut SelectSpec, o: ExecOpts, allow_with: bool) {
     s.hints.clear();
     s.sample = None;
     // ---- set operations: arms have the same arity, carry no ORDER BY / LIMIT, and are not nested
+    s.items.truncate(4);
     let n_items = s.items.len();
     let has_star = s.items.iter().any(|i| matches!(i.e, E::Star));
     if has_star {
@@ -701,19 +740,16 @@ pub fn fix_select_exec(s: &mut SelectSpec, o: ExecOpts, allow_with: bool) {
     }
     s.unions.truncate(2);
     for (_, u) in s.unions.iter_mut() {
-        u.unions.clear();
+        // an arm may itself be a compound select, one level deep: A EXCEPT (B UNION C)
+        for (_, uu) in u.unions.iter_mut() {
+            uu.unions.clear();
+        }
+        u.unions.truncate(1);
         u.with = None;
-        fix_select_exec(u, o, false);
+        fix_select_exec_n(u, o, false, Some(n_items.min(4)));
         u.orders.clear();
         u.limit = None;
         u.offset = None;
-        u.items.truncate(n_items);
-        while u.items.len() < n_items {
-            u.items.push(Item { e: E::Int(3), alias: None, win: None });
-        }
-        if u.items.iter().any(|i| matches!(i.e, E::Star)) {
-            u.items = (0..n_items).map(|_| Item { e: E::Int(4), alias: None, win: None }).collect();
-        }
     }
     // ---- ORDER BY / LIMIT: deterministic
     let compound = !s.unions.is_empty();
@@ -721,10 +757,6 @@ pub fn fix_select_exec(s: &mut SelectSpec, o: ExecOpts, allow_with: bool) {
         // ORDER BY of a compound select may only name result columns: give every item an alias and order by all of them
         for (k, it) in s.items.iter_mut().enumerate() {
             it.alias = Some(k as u8 % 4);
-        }
-        s.items.truncate(4);
-        for (_, u) in s.unions.iter_mut() {
-            u.items.truncate(4);
         }
         let want_order = !s.orders.is_empty() || s.limit.is_some() || s.offset.is_some();
         let dirs: Vec<Dir> = s.orders.iter().map(|o| match &o.dir { Dir::Field(_) => Dir::Asc, d => d.clone() }).collect();
@@ -742,7 +774,7 @@ pub fn fix_select_exec(s: &mut SelectSpec, o: ExecOpts, allow_with: bool) {
             .map(|od| {
                 let e = fx(&od.e);
                 let e = if grouped { wrap(e, &s.groups) } else { strip_aggs(&e) };
-                OrdSpec { e, dir: od.dir.clone(), nulls: od.nulls }
+                OrdSpec { e: not_positional(e), dir: od.dir.clone(), nulls: od.nulls }
             })
             .collect();
         if s.limit.is_some() || s.offset.is_some() || !orders.is_empty() {
@@ -780,7 +812,7 @@ pub fn fix_select_exec(s: &mut SelectSpec, o: ExecOpts, allow_with: bool) {
 fn fix_window_exec(ws: &mut WinSpec, scope: &[u8], o: ExecOpts) {
     let fx = |e: &E| rescope(&strip_aggs(&if o.portable { portable_expr(e) } else { e.clone() }), scope);
     ws.partition = ws.partition.iter().map(&fx).collect();
-    ws.order = ws.order.iter().map(|od| OrdSpec { e: fx(&od.e), dir: match &od.dir { Dir::Field(_) => Dir::Desc, d => d.clone() }, nulls: od.nulls }).collect();
+    ws.order = ws.order.iter().map(|od| OrdSpec { e: not_positional(fx(&od.e)), dir: match &od.dir { Dir::Field(_) => Dir::Desc, d => d.clone() }, nulls: od.nulls }).collect();
     // total order inside the window so that ROWS frames are deterministic
     for q in scope {
         ws.order.push(OrdSpec { e: E::QCol(*q, 0), dir: Dir::Asc, nulls: None });
@@ -908,6 +940,7 @@ pub fn fix_exec(s: &mut Stmt, o: ExecOpts) {
                 InsertSource::Default(n) => {
                     i.columns.clear();
                     *n = 1; // SQLite inserts one default row
+                    i.on_conflict = None; // DEFAULT VALUES takes no upsert clause (engine grammar)
                 }
             }
             if let Some(c) = &mut i.on_conflict {
@@ -991,7 +1024,7 @@ pub fn fix_exec(s: &mut Stmt, o: ExecOpts) {
                 u.orders.clear();
                 u.limit = None;
             }
-            u.orders = u.orders.iter().map(|od| OrdSpec { e: rescope(&strip_aggs(&px(&od.e)), &[t]), dir: od.dir.clone(), nulls: od.nulls }).collect();
+            u.orders = u.orders.iter().map(|od| OrdSpec { e: not_positional(rescope(&strip_aggs(&px(&od.e)), &[t])), dir: od.dir.clone(), nulls: od.nulls }).collect();
             if u.limit.is_some() || !u.orders.is_empty() {
                 u.orders.push(OrdSpec { e: E::Col(0).clone(), dir: Dir::Asc, nulls: None });
                 u.orders.push(OrdSpec { e: E::QCol(t, 0), dir: Dir::Asc, nulls: None });
@@ -1010,7 +1043,7 @@ pub fn fix_exec(s: &mut Stmt, o: ExecOpts) {
                 x.limit = None;
             }
             x.wheres = x.wheres.iter().map(|w| rescope(&strip_aggs(&px(w)), &[t])).collect();
-            x.orders = x.orders.iter().map(|od| OrdSpec { e: rescope(&strip_aggs(&px(&od.e)), &[t]), dir: od.dir.clone(), nulls: od.nulls }).collect();
+            x.orders = x.orders.iter().map(|od| OrdSpec { e: not_positional(rescope(&strip_aggs(&px(&od.e)), &[t])), dir: od.dir.clone(), nulls: od.nulls }).collect();
             if x.limit.is_some() || !x.orders.is_empty() {
                 x.orders.push(OrdSpec { e: E::QCol(t, 0), dir: Dir::Asc, nulls: None });
                 if x.limit.is_none() {
